@@ -511,6 +511,13 @@ class DateRange:
             date += self.step
 
     def __contains__(self, date):
+        if self.step.total_seconds() < 0:
+            # backward range: start is the latest date
+            if self.inclusive:
+                return self.start >= date >= self.stop
+            else:
+                return self.start >= date > self.stop
+
         if self.inclusive:
             return self.start <= date <= self.stop
         else:
